@@ -10,6 +10,7 @@ import (
 	"runtime"
 	"runtime/metrics"
 	"strings"
+	"sync"
 	"time"
 
 	wire "github.com/jeroenrinzema/psql-wire"
@@ -188,7 +189,7 @@ func (ch c04) Run(c *core.Ctx) {
 		_ = wire.TypeMap(ctx)
 		return nil
 	}
-	hooks := []wire.OptionFn{wire.CloseConn(hook), wire.TerminateConn(hook)}
+	hooks := []wire.OptionFn{wire.CloseConn(hook), wire.TerminateConn(hook), wire.GlobalParameters(wire.Parameters{"application_name": "c04", "search_path": "public", "TimeZone": "UTC"})}
 	envTLS := hs.Start(hs.Parse, append(hooks, wire.MessageBufferSize(c04L), wire.TLSConfig(hs.ServerTLS()))...)
 	envs := c04envs{plain: hs.Start(hs.Parse, append(hooks, wire.MessageBufferSize(c04L))...), auth: hs.Start(hs.Parse, append(hooks, wire.MessageBufferSize(c04L), wire.SessionAuthStrategy(wire.ClearTextPassword(c04validator)))...)}
 	nb := ch.Batches(c.Tier)
@@ -387,6 +388,34 @@ func (ch c04) Run(c *core.Ctx) {
 				}
 			}
 		}
+		probe()
+	}
+	// ---- many clients starting up at the same moment (a reconnect storm), some of them half-way: the
+	// process survives and a fresh connection is served afterwards ----
+	if c.Batch == 3%nb && c.Begin(870000000) {
+		var wg sync.WaitGroup
+		for g := 0; g < 16; g++ {
+			wg.Add(1)
+			go func(g int) {
+				defer wg.Done()
+				for i := 0; i < 40; i++ {
+					conn := tr.NewConn(c04sess())
+					conn.NoLog = true
+					envs.plain.L.DialConn(conn)
+					pkt := pg.Startup([][2]string{{"user", fmt.Sprintf("storm%d", g)}, {"database", "d"}})
+					if i%7 == 3 {
+						pkt = pkt[:len(pkt)/2]
+					}
+					conn.Send(pkt)
+					conn.Quiesce()
+					conn.CloseWrite()
+					conn.WaitClosed()
+				}
+			}(g)
+		}
+		wg.Wait()
+		c.Count("simultaneous_startups", 16*40)
+		c.Eval("startup storm", true)
 		probe()
 	}
 	// ---- floods of negotiation packets on one connection (30000 GSSENCRequest / SSLRequest packets, the
